@@ -352,6 +352,28 @@ def analyse_apply(ctx, run, cls, func, discharges):
             raises[cnode.id] = rr
     run.count("apply methods analysed")
     run.count("commit-point candidates", len(muts))
+    # a mutating call evaluated as an *argument* of a call that may refuse:
+    # `self._directive([node.detach()], collapse)` detaches first
+    intra = {}
+    for cnode in cfg.stmt_nodes():
+        if cnode.id not in muts or cnode.id not in raises:
+            continue
+        for outer in calls_at(cnode):
+            targets, _ = ctx.eff.resolve(fref, outer)
+            stack = stacks.get(id(cnode.ast), [])
+            refuses = any(
+                ctx.eff.exc_is_a(e, TERR) and
+                not ctx.eff.handlers_catch(stack, e)
+                for t in targets for e in ctx.eff.may_raise(t))
+            if not refuses:
+                continue
+            inner = [c for a in list(outer.args) +
+                     [k.value for k in outer.keywords]
+                     for c in ast.walk(a) if isinstance(c, ast.Call)]
+            inner_muts = [c for c in inner
+                          if mutation_kind([ast.Expr(value=c)], fresh)]
+            if inner_muts:
+                intra[cnode.id] = (outer, inner_muts[0])
     nviol = 0
     reported = set()
     pending = {}
@@ -411,6 +433,12 @@ def analyse_apply(ctx, run, cls, func, discharges):
                         "between"})
                 continue
             pending.setdefault(rid, []).append((cnode, mlist, rule, why))
+    for cid, (outer, inner) in intra.items():
+        cnode = cfg.nodes[cid]
+        pending.setdefault(cid, []).append(
+            (cnode, [("tree", ast.unparse(inner))], "C26.R2",
+             f"{ast.unparse(outer.func)}() may raise TransformationError "
+             f"after its argument '{ast.unparse(inner)}' was evaluated"))
     for rid, items in pending.items():
         rnode = cfg.nodes[rid]
         refusing = norm(rnode.ast)
@@ -546,13 +574,6 @@ DISCHARGES = {
         "an OMPParallelDirective; apply passes `node`, for which validate() "
         "(dominating) raised already unless isinstance(node, "
         "OMPParallelDirective)",
-    "OMPTaskTrans.apply|super().apply(node, options)":
-        "ASSUMPTION (not proved): the re-validation inside super().apply "
-        "accepts again after _inline_kernels(); validate() had performed "
-        "the same inlining on a copy and validated every InlineTrans, but "
-        "the dependence analysis is only re-run on the inlined body here. "
-        "No failing input was found; listed in DESIGN.md as an unconfirmed "
-        "hazard",
 }
 
 # validate() methods with a reviewed mutation
